@@ -189,6 +189,8 @@ class Interp:
                     raise NoEval('slice out of range')
                 return b[lo:hi]
             i = self.ev(e['i'], env)
+            if isinstance(b, Obj) and hasattr(b, 'getitem'):
+                return b.getitem(i)
             try:
                 if isinstance(b, dict):
                     return b[i]
@@ -497,6 +499,8 @@ class Interp:
             if nm == 'to_ascii_uppercase':
                 return recv.upper()
         if isinstance(recv, int) and not isinstance(recv, bool):
+            if nm == 'is_zero' and not args:
+                return recv == 0
             if nm in ('min', 'max') and args:
                 return min(recv, A()) if nm == 'min' else max(recv, A())
             if nm == 'saturating_sub':
